@@ -3,7 +3,7 @@
    choice of the environment: an internal step, a step the implementation performs by itself, or
    the return of a Run/Stop/Reload/IsRunning call that a contract-abiding runnable owes. *)
 From Coq Require Import List Bool Arith.
-From GS Require Import LTS Supervisor SupAccept SupProps SupInv SupOnce SupCensus SupProgress.
+From GS Require Import LTS Supervisor SupAccept SupProps SupInv SupOnce SupCensus SupProgress SupMeasure.
 Import ListNotations.
 
 (* Provided the runnables behave like the bundled ones (Run returns after Stop or cancellation;
@@ -64,3 +64,77 @@ Example C02_ex_in_stop :
             /\ sd s = SdIn 0 /\ step c02_cfg s (LStopRet 0) = None
             /\ step c02_cfg s (LRunRet 0 None) <> None.
 Proof. eexists. split; [vm_compute; reflexivity|]. split; [reflexivity|]. split; vm_compute; [reflexivity|discriminate]. Qed.
+
+(* ---- termination: a measure, not only the absence of stuck states ---- *)
+
+(* `is_system l`: l is a step of the implementation or one a runnable owes - everything except the
+   environment's free choices (API calls, state emissions, trigger offers, parent cancellation,
+   subscriber actions, the start of / a negative answer to an IsRunning() poll, observations).
+   `mu c s` (SupMeasure.v) is a natural number computed from the state.
+   Once shutdown has started, EVERY such step strictly decreases mu - for every configuration,
+   whatever the runnables do (no `good` hypothesis) ... *)
+Theorem C02_measure_decreases : forall c s l s',
+  sd s <> SdNot -> is_system l = true -> step c s l = Some s' -> mu c s' < mu c s.
+Proof. exact mu_system_step. Qed.
+
+(* ... and a step of the environment increases it by at most W c + 3 = 2 * nrun c + 6. *)
+Theorem C02_measure_env : forall c s l s',
+  is_system l = false -> step c s l = Some s' -> mu c s' <= mu c s + W c + 3.
+Proof. exact mu_env_step. Qed.
+
+(* Hence along ANY execution after shutdown start the number of implementation steps is bounded by
+   the measure of the starting state plus a fixed amount per environment step: with finitely many
+   environment steps there is no infinite execution (no livelock). *)
+Theorem C02_bounded : forall c ls s s',
+  sd s <> SdNot -> run (step c) s ls = Some s' ->
+  count_sys ls + mu c s' <= mu c s + (W c + 3) * count_env ls.
+Proof. exact sup_c02_bounded. Qed.
+
+(* Every maximal execution of the implementation after shutdown start (from a reachable state, with
+   runnables that exit when signalled) has at most mu steps, and where it can go no further the
+   shutdown body is done and Run() HAS RETURNED. *)
+Theorem C02_maximal_execution_returns : forall c s ls s',
+  good c -> 0 < nrun c -> reachable_sup c s -> sd s <> SdNot ->
+  run (step c) s ls = Some s' -> forallb is_system ls = true ->
+  length ls <= mu c s /\
+  (system_stuck c s' -> sd s' = SdDone /\ exists r, main s' = MReturned r).
+Proof. exact sup_c02_maximal. Qed.
+
+(* ... and no Shutdown() caller is left inside the library. *)
+Theorem C02_stuck_returned : forall c s,
+  good c -> 0 < nrun c -> reachable_sup c s -> sd s <> SdNot -> system_stuck c s ->
+  sd s = SdDone /\ (exists r, main s = MReturned r) /\
+  (forall k cs, find_caller k (callers s) <> Some (OpShutdown, cs)).
+Proof. exact sup_c02_stuck_returned. Qed.
+
+Print Assumptions C02_measure_decreases.
+Print Assumptions C02_measure_env.
+Print Assumptions C02_bounded.
+Print Assumptions C02_maximal_execution_returns.
+Print Assumptions C02_stuck_returned.
+
+(* non-vacuity: a complete shutdown of c02_cfg; the measure goes from 13 to 0 in 9 implementation
+   steps, and with measure 0 no implementation step is enabled *)
+Definition c02_pre : list label := [LLaunch 0; LRunCall 0; LCall 1 OpShutdown; LCallerGo 1].
+Definition c02_rest : list label :=
+  [LStopCall 0; LRunRet 0 None; LStopRet 0; LSdCancel; LSdWgDone; LReapCtx; LMainShutdown;
+   LMainReturn ResNil; LRet 1 OpShutdown].
+Definition c02_mid : state :=
+  match run (step c02_cfg) (init c02_cfg) c02_pre with Some s => s | None => init c02_cfg end.
+Definition c02_final : state :=
+  match run (step c02_cfg) c02_mid c02_rest with Some s => s | None => init c02_cfg end.
+Example C02_ex_terminates :
+  run (step c02_cfg) (init c02_cfg) c02_pre = Some c02_mid /\ sd c02_mid <> SdNot /\
+  run (step c02_cfg) c02_mid c02_rest = Some c02_final /\ forallb is_system c02_rest = true /\
+  mu c02_cfg c02_mid = 13 /\ mu c02_cfg c02_final = 0 /\ main c02_final = MReturned ResNil /\
+  system_stuck c02_cfg c02_final.
+Proof.
+  split; [vm_compute; reflexivity|]. split; [vm_compute; discriminate|].
+  split; [vm_compute; reflexivity|]. split; [reflexivity|]. split; [vm_compute; reflexivity|].
+  split; [vm_compute; reflexivity|]. split; [vm_compute; reflexivity|].
+  intros l Hl. destruct (step c02_cfg c02_final l) as [s2|] eqn:E; [|reflexivity]. exfalso.
+  assert (Hsd : sd c02_final <> SdNot) by (vm_compute; discriminate).
+  pose proof (C02_measure_decreases _ _ _ _ Hsd Hl E) as X.
+  assert (M : mu c02_cfg c02_final = 0) by (vm_compute; reflexivity).
+  rewrite M in X. inversion X.
+Qed.
